@@ -613,6 +613,10 @@ class RawVoltageBackend(object):
         load_template : bool, optional
             Control whether the internal header template's keys are used.
         """
+        # Work on a copy: the header dictionary is filled in and PKTIDX is advanced while
+        # recording, which must not leak into the caller's dictionary or the shared default
+        header_dict = dict(header_dict)
+        
         if length_mode == 'obs_length':
             if obs_length is None:
                 if self.input_num_blocks is not None:
